@@ -967,7 +967,7 @@ xar_read_data(struct archive_read *a,
 abort_read_data:
 	*buff = NULL;
 	*size = 0;
-	*offset = xar->total;
+	*offset = xar->entry_total;
 	return (r);
 }
 
